@@ -527,6 +527,15 @@ def fixed_corpus():
                    start=[2020, 12, 15], end=[2021, 1, 25], period="week", group="week_of_year"))
     cs.append(dict(zone="Asia/Kathmandu", evs=[ev(_utc(1985, 12, 31, 12), _utc(1986, 1, 1, 12), 1)], fn="ratio",
                    start=[1985, 12, 30], end=[1986, 1, 3], period="day", group=None))
+    # the Unix epoch itself as a bound and as an event edge (0 is an instant like any other), and
+    # instants before it
+    for fn in ("total", "count", "ratio", "max", "min"):
+        cs.append(dict(zone="UTC", evs=[ev(-3600, 3600, 1), ev(0, 7200, 2), ev(90000, 100000, 3)], fn=fn,
+                       start=0, end=2 * 86400, period="day", group=None))
+        cs.append(dict(zone="UTC", evs=[ev(-7200, 0, 1), ev(-100, 100, 2)], fn=fn,
+                       start=-86400, end=0, period="hour", group=None))
+    cs.append(dict(zone="UTC", evs=[ev(-3600, 3600, 1)], fn="total", start=-86400, end=86400, period="day",
+                   group="day_of_week"))
     return cs
 
 
